@@ -67,7 +67,7 @@ var cfgs = []cfg{
 	{"rsa2048-x5chain-dhkex14-ctr", "rsa2048restr", protocol.X5ChainKeyEnc, kex.DHKEXid14Suite, kex.CoseAes128CtrCipher, 1, false},
 	{"rsapss3072-x509-asymkex3072-gcm256", "rsapss3072", protocol.X509KeyEnc, kex.ASYMKEX3072Suite, kex.A256GcmCipher, 1, true},
 	{"ec256-x5chain-ecdh256-cbc128-hops3", "ec256", protocol.X5ChainKeyEnc, kex.ECDH256Suite, kex.CoseAes128CbcCipher, 3, true},
-	{"rsapkcs3072-cose-dhkex15-ctr256", "rsapkcs3072", protocol.CoseKeyEnc, kex.DHKEXid15Suite, kex.CoseAes256CtrCipher, 2, false},
+	{"rsapkcs3072-x509-dhkex15-ctr256", "rsapkcs3072", protocol.X509KeyEnc, kex.DHKEXid15Suite, kex.CoseAes256CtrCipher, 2, false},
 }
 
 func cfgsFor(tier string) []cfg {
